@@ -13,6 +13,7 @@ import (
 
 	"github.com/dolthub/go-mysql-server/sql"
 	"github.com/dolthub/go-mysql-server/sql/analyzer"
+	"github.com/dolthub/go-mysql-server/sql/expression"
 	"github.com/dolthub/go-mysql-server/sql/plan"
 	"github.com/dolthub/go-mysql-server/sql/planbuilder"
 	"github.com/dolthub/go-mysql-server/sql/transform"
@@ -22,7 +23,16 @@ import (
 	"verifharness/lib/eng"
 )
 
+// likeT: a LIKE case (engine level over a column of strings, or rule level for incrementLastRune)
+type likeT struct {
+	Kind   string   `json:"kind"` // "like" | "like-incr"
+	Vals   []*string `json:"vals,omitempty"`
+	Pat    string   `json:"pat,omitempty"`
+	Prefix []int32  `json:"prefix,omitempty"`
+}
+
 type caseT struct {
+	Kind    string    `json:"kind,omitempty"`
 	Rows    [][]x.Val `json:"rows"` // columns a b d e s u f g
 	Indexed bool      `json:"indexed"`
 	P       *x.Ex     `json:"p"`
@@ -820,6 +830,328 @@ func rowsText(rows [][]x.Val) string {
 	return sb.String()
 }
 
+// ---------- pushFilters at rule level ----------
+
+type pushT struct {
+	Kind string `json:"kind"` // "push"
+	SQL  string `json:"sql"`
+}
+
+var pushCols = map[string]int{"ida": 0, "a1": 1, "b1": 2, "s1": 3, "idb": 4, "a2": 5, "b2": 6, "s2": 7, "idc": 8, "a3": 9, "b3": 10, "s3": 11}
+var pushTabs = map[string]int{"pa": 0, "pb": 1, "pc": 2}
+
+const pushOwn = "[0;0;0;0;1;1;1;1;2;2;2;2]%nat"
+
+func (v *env) pushTables() {
+	if _, ok := v.tables["push"]; ok {
+		return
+	}
+	v.tables["push"] = "pa"
+	v.s.MustExec("CREATE TABLE pa (ida INT PRIMARY KEY, a1 INT, b1 INT, s1 VARCHAR(20))",
+		"CREATE TABLE pb (idb INT PRIMARY KEY, a2 INT, b2 INT, s2 VARCHAR(20))",
+		"CREATE TABLE pc (idc INT PRIMARY KEY, a3 INT, b3 INT, s3 VARCHAR(20))",
+		"INSERT INTO pa VALUES (0,1,2,'x'),(1,2,NULL,'y'),(2,NULL,0,'x'),(3,3,3,NULL),(4,2,2,'x'),(5,0,1,'z')",
+		"INSERT INTO pb VALUES (0,1,NULL,'x'),(1,2,0,'x'),(2,2,3,'y'),(3,NULL,1,NULL),(4,5,-1,'x')",
+		"INSERT INTO pc VALUES (0,1,NULL,'x'),(1,2,1,'y'),(2,NULL,0,'q'),(3,2,3,'x')")
+}
+
+// planCoq converts an engine plan to the model plan term (Project nodes are transparent)
+func planCoq(ctx *sql.Context, n sql.Node) (string, error) {
+	switch nd := n.(type) {
+	case *plan.Project:
+		return planCoq(ctx, nd.Child)
+	case *plan.Filter:
+		e, err := x.FromGo(ctx, nd.Expression, pushCols)
+		if err != nil {
+			return "", err
+		}
+		c, err := planCoq(ctx, nd.Child)
+		if err != nil {
+			return "", err
+		}
+		return "(PFilter " + e.Coq() + " " + c + ")", nil
+	case *plan.JoinNode:
+		lo := "false"
+		switch {
+		case nd.Op.IsLeftOuter():
+			lo = "true"
+		case nd.Op.IsInner() || nd.Op.IsCross():
+		default:
+			return "", fmt.Errorf("unmodelled join %s", nd.Op)
+		}
+		cond := "lit_true"
+		if nd.Filter != nil {
+			e, err := x.FromGo(ctx, nd.Filter, pushCols)
+			if err != nil {
+				return "", err
+			}
+			cond = e.Coq()
+		}
+		a, err := planCoq(ctx, nd.Left())
+		if err != nil {
+			return "", err
+		}
+		b, err := planCoq(ctx, nd.Right())
+		if err != nil {
+			return "", err
+		}
+		return "(PJoin " + lo + " " + cond + " " + a + " " + b + ")", nil
+	case *plan.Limit:
+		l, ok := nd.Limit.(*expression.Literal)
+		if !ok {
+			return "", fmt.Errorf("unmodelled limit")
+		}
+		lv, err := x.ValFromGo(l.Value())
+		if err != nil {
+			return "", err
+		}
+		c, err := planCoq(ctx, nd.Child)
+		if err != nil {
+			return "", err
+		}
+		return fmt.Sprintf("(PLimit %d%%nat %s)", lv.I, c), nil
+	case *plan.ResolvedTable:
+		t, ok := pushTabs[strings.ToLower(nd.Name())]
+		if !ok {
+			return "", fmt.Errorf("unknown table %s", nd.Name())
+		}
+		return fmt.Sprintf("(PTable %d%%nat)", t), nil
+	case *plan.TableAlias:
+		return planCoq(ctx, nd.Child)
+	}
+	return "", fmt.Errorf("unmodelled node %T", n)
+}
+
+func genPush(r *lib.RNG) pushT {
+	single := [][]string{
+		{"a1 > 1", "b1 IS NULL", "s1 = 'x'", "a1 + b1 < 5", "a1 IN (1, 2)", "NOT (b1 = 2)"},
+		{"a2 > 1", "b2 IS NULL", "s2 = 'x'", "a2 BETWEEN 1 AND 3", "b2 <= 0"},
+		{"a3 > 1", "b3 IS NULL", "s3 <> 'y'"},
+	}
+	multi := map[string][]string{
+		"ab": {"a1 = a2", "b1 < b2", "a1 + 1 = b2", "s1 = s2", "a1 = a2 OR b1 = b2"},
+		"ac": {"a1 = a3", "b1 > b3"},
+		"bc": {"a2 = a3", "b2 <= b3", "s2 = s3"},
+	}
+	consts := []string{"1 = 1", "2 > 1"}
+	three := r.Chance(1, 3)
+	pick := func(scope string) string {
+		// a conjunct whose tables lie within the scope ("ab", "abc")
+		var pool []string
+		for i, t := range "abc" {
+			if strings.ContainsRune(scope, t) {
+				pool = append(pool, single[i]...)
+			}
+		}
+		for k, l := range multi {
+			if strings.Contains(scope, k[:1]) && strings.Contains(scope, k[1:]) {
+				pool = append(pool, l...)
+			}
+		}
+		if r.Chance(1, 10) {
+			return lib.Pick(r, consts)
+		}
+		return lib.Pick(r, pool)
+	}
+	conj := func(scope string, n int) string {
+		parts := make([]string, n)
+		for i := range parts {
+			parts[i] = pick(scope)
+		}
+		return strings.Join(parts, " AND ")
+	}
+	j1 := lib.Pick(r, []string{"JOIN", "JOIN", "LEFT JOIN"})
+	q := "SELECT * FROM pa " + j1 + " pb ON " + conj("ab", r.Range(1, 3))
+	scope := "ab"
+	if three {
+		j2 := lib.Pick(r, []string{"JOIN", "JOIN", "LEFT JOIN"})
+		q += " " + j2 + " pc ON " + conj("abc", r.Range(1, 2))
+		scope = "abc"
+	}
+	if r.Chance(4, 5) {
+		q += " WHERE " + conj(scope, r.Range(1, 3))
+	}
+	return pushT{Kind: "push", SQL: q}
+}
+
+func runPush(c *lib.Ctx, v *env, cs pushT) {
+	v.pushTables()
+	ctx := v.s.Ctx
+	b := planbuilder.New(ctx, v.e.Engine.Analyzer.Catalog, nil)
+	node, _, _, qf, err := b.Parse(cs.SQL, nil, false)
+	if err != nil {
+		c.Count("push:parse-error")
+		return
+	}
+	before, err := planCoq(ctx, node)
+	if err != nil {
+		c.Count("push:unmodelled-input")
+		return
+	}
+	var out sql.Node
+	p, pv := lib.Recover(func() { out, _, err = analyzer.VerifC05PushFilters(ctx, v.e.Engine.Analyzer, node, nil, nil, qf) })
+	if p {
+		id := c.CaseNoModel(cs, "")
+		c.PredFail(id, "push-filters-panic", "pushFilters panicked on "+cs.SQL+": "+pv, cs)
+		return
+	}
+	if err != nil {
+		c.Count("push:error")
+		return
+	}
+	after, err := planCoq(ctx, out)
+	if err != nil {
+		c.Count("push:unmodelled-output")
+		return
+	}
+	if before != after {
+		c.Count("push:rewrote")
+	} else {
+		c.Count("push:unchanged")
+	}
+	id := c.Case("(PushCase "+pushOwn+" "+before+" "+after+")", cs, "push|"+cs.SQL)
+	// implementation alone: the same filter evaluated above a LIMIT (which blocks the push-down) keeps the same rows
+	if i := strings.Index(cs.SQL, " WHERE "); i > 0 {
+		q2 := "SELECT * FROM (" + cs.SQL[:i] + " LIMIT 1000) x WHERE " + cs.SQL[i+7:]
+		r1, r2 := v.s.Query(cs.SQL), v.s.Query(q2)
+		if r1.Err != nil || r2.Err != nil {
+			c.Count("push:engine-error")
+			return
+		}
+		c.PredChecked()
+		b1, b2 := eng.Bag(r1.Rows), eng.Bag(r2.Rows)
+		if strings.Join(b1, "|") != strings.Join(b2, "|") {
+			c.PredFail(id, "push/filter-below-join-vs-filter-above-limit",
+				fmt.Sprintf("[%s] => %v  but  [%s] => %v", cs.SQL, b1, q2, b2), cs)
+		}
+	}
+}
+
+// ---------- LIKE ----------
+
+func coqRunes(rs []rune) string {
+	if len(rs) == 0 {
+		return "[]"
+	}
+	parts := make([]string, len(rs))
+	for i, r := range rs {
+		parts[i] = fmt.Sprintf("%d", r)
+	}
+	return "[" + strings.Join(parts, ";") + "]"
+}
+
+var likeVals = []string{"", "a", "ab", "abc", "abd", "ac", "b", "A", "Ab", "aé", "é", "a%", "a_b", "ab\U0010FFFF", "ab\U0010FFFFz", "\uD7FF", "\uE000", "az"}
+var likePats = []string{"a%", "ab%", "é%", "%", "a", "ab", "a_", "%b", "a%c", "_", "", "aé%", "A%", "ab\U0010FFFF%", "\uD7FF%", "a%%", "b%", "abc%", "z%", "a_%"}
+
+func runLike(c *lib.Ctx, v *env, cs likeT) {
+	if cs.Kind == "like-incr" {
+		pre := string(cs.Prefix)
+		var out string
+		var ok bool
+		p, pv := lib.Recover(func() { out, ok = analyzer.VerifC05IncrementLastRune(pre) })
+		if p {
+			id := c.CaseNoModel(cs, "")
+			c.PredFail(id, "like/increment-last-rune-panic", "incrementLastRune panicked on "+fmt.Sprintf("%q", pre)+": "+pv, cs)
+			return
+		}
+		obs := "None"
+		if ok {
+			obs = "(Some " + coqRunes([]rune(out)) + ")"
+		}
+		c.Count("like:incr")
+		id := c.Case("(LikeIncrCase "+coqRunes([]rune(pre))+" "+obs+")", cs, "like-incr|"+pre)
+		// predicate on the implementation: the bound is above every extension of the prefix and nothing else fits between
+		c.PredChecked()
+		if ok {
+			for _, ext := range []string{"", "a", "\U0010FFFF", "\U0010FFFF\U0010FFFF"} {
+				if !(pre+ext < out) {
+					c.PredFail(id, "like/upper-bound-not-above-prefix", fmt.Sprintf("incrementLastRune(%q) = %q is not above %q", pre, out, pre+ext), cs)
+				}
+			}
+		}
+		return
+	}
+	// engine level
+	name := fmt.Sprintf("lk%d", len(v.tables))
+	v.tables["like|"+name] = name
+	v.s.MustExec("CREATE TABLE " + name + " (id INT PRIMARY KEY, s VARCHAR(40))")
+	for i, s := range cs.Vals {
+		lit := "NULL"
+		if s != nil {
+			lit = x.Str(*s).SQL()
+		}
+		v.s.MustExec(fmt.Sprintf("INSERT INTO %s VALUES (%d, %s)", name, i, lit))
+	}
+	pat := x.Str(cs.Pat).SQL()
+	rw := v.s.Query("SELECT id FROM " + name + " WHERE s LIKE " + pat)
+	rs := v.s.Query("SELECT id, s LIKE " + pat + " FROM " + name + " ORDER BY id")
+	v.s.MustExec("DROP TABLE " + name)
+	if rw.Err != nil || rs.Err != nil || rw.Panic != "" || rs.Panic != "" {
+		c.Count("like:error")
+		c.CaseNoModel(cs, "")
+		return
+	}
+	w, _ := ids(rw)
+	var sel []int
+	for i, r := range rs.Rows {
+		val, err := x.ValFromGo(r[1])
+		if err == nil && val.K != "null" && x.Truthy(val) {
+			sel = append(sel, i)
+		}
+	}
+	vals := make([]string, len(cs.Vals))
+	for i, s := range cs.Vals {
+		if s == nil {
+			vals[i] = "None"
+		} else {
+			vals[i] = "(Some " + coqRunes([]rune(*s)) + ")"
+		}
+	}
+	c.Count("like:engine")
+	key := ""
+	if len(w) > 0 && len(w) < len(cs.Vals) {
+		key = "like|" + cs.Pat
+	}
+	id := c.Case("(LikeCase "+lib.CoqList(vals)+" "+coqRunes([]rune(cs.Pat))+" "+coqIDs(w)+" "+coqIDs(sel)+")", cs, key)
+	c.PredChecked()
+	if !eqInts(w, sel) {
+		c.PredFail(id, "like/where-vs-select", fmt.Sprintf("WHERE s LIKE %s keeps ids %v but SELECT s LIKE %s is TRUE for ids %v (values %q)", pat, w, pat, sel, derefs(cs.Vals)), cs)
+	}
+}
+
+func derefs(vs []*string) []string {
+	out := make([]string, len(vs))
+	for i, s := range vs {
+		if s == nil {
+			out[i] = "NULL"
+		} else {
+			out[i] = *s
+		}
+	}
+	return out
+}
+
+func genLike(r *lib.RNG) likeT {
+	if r.Chance(1, 3) {
+		n := r.Range(1, 3)
+		var pre []int32
+		for i := 0; i < n; i++ {
+			pre = append(pre, lib.Pick(r, []int32{'a', 'b', 'z', 'A', 0xE9, 0xD7FF, 0xE000, 0xFFFF, 0x10FFFF, 0x10FFFE, 0x7F, 0x7FF}))
+		}
+		return likeT{Kind: "like-incr", Prefix: pre}
+	}
+	cs := likeT{Kind: "like", Pat: lib.Pick(r, likePats)}
+	for i := r.Range(5, 9); i > 0; i-- {
+		if r.Chance(1, 8) {
+			cs.Vals = append(cs.Vals, nil)
+		} else {
+			s := lib.Pick(r, likeVals)
+			cs.Vals = append(cs.Vals, &s)
+		}
+	}
+	return cs
+}
+
 // ---------- corpus ----------
 
 func corpus() []caseT {
@@ -863,7 +1195,7 @@ func corpus() []caseT {
 
 func main() {
 	lib.Main("C05", func(c *lib.Ctx) {
-		c.Header = "From Coq Require Import List NArith ZArith.\nImport ListNotations.\nFrom GMS Require Import Expr.C05Expr Corr.C05.\nOpen Scope N_scope."
+		c.Header = "From Coq Require Import List NArith ZArith.\nImport ListNotations.\nFrom GMS Require Import Expr.C05Expr Plan.C05Pushdown Corr.C05.\nOpen Scope N_scope."
 		c.CaseType = "C05.case"
 		c.MismatchFn = "C05.mismatches"
 		c.SetRule("typed random predicates (depth 1-3: comparisons, <=>, + - *, unary minus, AND/OR/XOR/NOT, IS NULL, IS TRUE/FALSE, IN lists with NULLs, " +
@@ -875,6 +1207,22 @@ func main() {
 		v := newEnv()
 		v.c = c
 		if c.ReplayFile != "" {
+			var k struct {
+				Kind string `json:"kind"`
+			}
+			lib.LoadReplay(c.ReplayFile, &k)
+			if k.Kind == "push" {
+				var pc pushT
+				lib.LoadReplay(c.ReplayFile, &pc)
+				runPush(c, v, pc)
+				return
+			}
+			if k.Kind == "like" || k.Kind == "like-incr" {
+				var lc likeT
+				lib.LoadReplay(c.ReplayFile, &lc)
+				runLike(c, v, lc)
+				return
+			}
 			var cs caseT
 			lib.LoadReplay(c.ReplayFile, &cs)
 			run(c, v, cs)
@@ -884,9 +1232,26 @@ func main() {
 		for _, cs := range cp {
 			run(c, v, cs)
 		}
+		sp := func(s string) *string { return &s }
+		runLike(c, v, likeT{Kind: "like", Pat: "ab%", Vals: []*string{sp("ab"), sp("abc"), sp("ac"), sp("a"), nil, sp("ab\U0010FFFF"), sp("Ab")}})
+		runLike(c, v, likeT{Kind: "like", Pat: "ab\U0010FFFF%", Vals: []*string{sp("ab\U0010FFFF"), sp("ab\U0010FFFFz"), sp("ab"), sp("b")}})
+		runLike(c, v, likeT{Kind: "like", Pat: "\uD7FF%", Vals: []*string{sp("\uD7FF"), sp("\uD7FFa"), sp("\uE000"), sp("a")}})
+		runLike(c, v, likeT{Kind: "like-incr", Prefix: []int32{'a', 0xD7FF}})
+		runLike(c, v, likeT{Kind: "like-incr", Prefix: []int32{'a', 0x10FFFF}})
+		runPush(c, v, pushT{Kind: "push", SQL: "SELECT * FROM pa JOIN pb ON a1 = a2 AND b2 IS NULL WHERE a1 > 1 AND b1 < b2 AND s2 = 'x'"})
+		runPush(c, v, pushT{Kind: "push", SQL: "SELECT * FROM pa LEFT JOIN pb ON a1 = a2 AND b2 IS NULL WHERE a1 > 1 AND s2 = 'x'"})
+		runPush(c, v, pushT{Kind: "push", SQL: "SELECT * FROM pa JOIN pb ON a1 = a2 LEFT JOIN pc ON a2 = a3 AND b3 IS NULL WHERE b3 IS NULL AND a2 > 1 AND 1 = 1"})
 		var rows [][]x.Val
 		for i := len(cp); i < c.N; i++ {
 			r := c.R.Fork()
+			if i%8 == 7 {
+				runLike(c, v, genLike(r))
+				continue
+			}
+			if i%8 == 3 {
+				runPush(c, v, genPush(r))
+				continue
+			}
 			if rows == nil || i%40 == 0 {
 				rows = genRows(r)
 			}
